@@ -49,6 +49,7 @@ def cls_case(draw):
     row = draw(st.sampled_from(est.ROWS))
     cplx = draw(st.booleans())
     x = draw(gen.signal(16, 96, "complex" if cplx else "real", kinds=KINDS, noise_levels=(0.1, 1.0)))
+    x = est.sanitize(row, x)
     N = x["n"]
     p = draw(est.params(row, N, cplx))
     lo = max(N, est.min_nfft(row, N, p))
@@ -130,6 +131,7 @@ def fn_case(draw):
     elif fn in ("arcovar", "arcovar_marple", "modcovar", "modcovar_marple"):
         q = {"order": draw(st.integers(1, min((N - 1) // 2, 10)))}
     elif fn == "arma_estimate":
+        x = est.sanitize("parma", x)
         q = draw(est.params("parma", N, cplx))
     elif fn == "ma":
         q = draw(est.params("pma", N, cplx))
